@@ -88,6 +88,8 @@ def table_facts(members):
                     "rows": obj.number_of_rows, "cols": obj.number_of_columns,
                     "row_buckets": [b.identifier for b in bds.rowHeaders.buckets],
                     "tiles": [t.tile.identifier for t in bds.tiles.tiles],
+                    "tile_pos": {t.tile.identifier: t.tileid for t in bds.tiles.tiles},
+                    "tile_size": bds.tiles.tile_size or 256,
                 }
     return tables
 
@@ -99,8 +101,52 @@ def make_edit(plan, facts, stats):
         for b in t["row_buckets"]:
             row_bucket_rows[b] = t["rows"]
 
+    tile_rows = {}
+    for t in facts.values():
+        for tid, pos in t.get("tile_pos", {}).items():
+            tile_rows[tid] = max(0, min(t["tile_size"], t["rows"] - pos * t["tile_size"]))
+
     def edit(kind, obj, ident):
         ch = False
+        if kind == "tile" and plan.get("row_records") and obj.rowInfos:
+            # the order of the row records inside a tile carries no meaning (each declares its row), and a row without content may
+            # have an explicit record with no cells: records are shuffled, or added for the rows that have none - in row order, or
+            # appended behind the existing ones
+            mode = plan["row_records"]
+            infos = [type(ri).FromString(ri.SerializeToString()) for ri in obj.rowInfos]
+            before = [ri.tile_row_index for ri in infos]
+            if mode in ("add_sorted", "add_appended") and ident in tile_rows:
+                have = set(before)
+                template = infos[0]
+                for r in range(tile_rows[ident]):
+                    if r in have:
+                        continue
+                    ri = type(template)()
+                    ri.tile_row_index = r
+                    ri.cell_count = 0
+                    ri.cell_storage_buffer_pre_bnc = b""
+                    ri.cell_offsets_pre_bnc = b""
+                    if template.HasField("storage_version"):
+                        ri.storage_version = template.storage_version
+                    ri.cell_storage_buffer = b""
+                    ri.cell_offsets = b"\xff\xff" * (len(template.cell_offsets) // 2)
+                    ri.has_wide_offsets = template.has_wide_offsets
+                    infos.append(ri)
+                    stats["empty_row_records_added"] = stats.get("empty_row_records_added", 0) + 1
+                if mode == "add_sorted":
+                    infos.sort(key=lambda ri: ri.tile_row_index)
+            elif mode == "shuffle":
+                rnd.shuffle(infos)
+            after = [ri.tile_row_index for ri in infos]
+            if after != before:
+                del obj.rowInfos[:]
+                for ri in infos:
+                    obj.rowInfos.add().CopyFrom(ri)
+                obj.numrows = len(infos)
+                if after != sorted(after):
+                    stats["tiles_with_records_out_of_row_order"] = stats.get("tiles_with_records_out_of_row_order", 0) + 1
+                stats["tiles_with_row_records_rearranged"] = stats.get("tiles_with_row_records_rearranged", 0) + 1
+                ch = True
         if kind == "datalist" and plan.get("permute_lists") and len(obj.entries) >= 2:
             entries = [type(e).FromString(e.SerializeToString()) for e in obj.entries]
             order = list(range(len(entries)))
@@ -207,7 +253,7 @@ def rewrite(src, dst_dir, plan):
 
     members = pkg.members(src)
     stats = {}
-    facts = table_facts(members) if (plan.get("empty_row_headers")) else {}
+    facts = table_facts(members) if (plan.get("empty_row_headers") or plan.get("row_records")) else {}
     edit = make_edit(plan, facts, stats)
     rnd = random.Random(plan.get("salt", 0) + 17)
     out = []
@@ -219,7 +265,7 @@ def rewrite(src, dst_dir, plan):
             except (iwa.FormatError, IndexError):
                 out.append((name, data))
                 continue
-            if plan.get("permute_lists") or plan.get("offsets") or plan.get("empty_row_headers") or plan.get("drop_empty_rows"):
+            if plan.get("permute_lists") or plan.get("offsets") or plan.get("empty_row_headers") or plan.get("drop_empty_rows") or plan.get("row_records"):
                 S, n = rewrite_stream(S, edit)
             if plan.get("rechunk"):
                 mode = plan["rechunk"]
